@@ -150,6 +150,10 @@ func refConfig(s *scn.Scenario) zzsim.Config {
 }
 
 func runC11(s *scn.Scenario, res *scn.Result) {
+	if s.Kind == "C" {
+		runC11CLI(s, res)
+		return
+	}
 	for i := range s.Inputs {
 		if v := s.Inputs[i].Version; v != "" {
 			if _, ok := sharedVersions[v]; !ok {
